@@ -742,10 +742,18 @@ def r04d(ctx, run):
         raise LookupError("Expr::Comptime arm of inference (the one reporting ComptimePointer)")
 
 
+def r04i(ctx, run):
+    """what is stored for one comptime block (its result, its captured data, the data object it was embedded as) is stored under a key that names THAT
+    block: a ComptimeLoc (file + body + instantiation), never an arena index that a block in another file shares (shared with C16 R16.a)"""
+    import c16
+    c16.r16a(ctx, run)
+
+
 def rules(ctx):
     return [
         Rule("R04.a", "address-bearing comptime results are rejected or relocated (top level and through aggregate members)", 16, r04a),
         Rule("R04.b", "all comptime blocks are evaluated before code generation, which receives those results and never recompiles an evaluated block", 9, r04b),
+        Rule("R04.i", "tables of comptime artefacts (results, captured data, embedded data objects) are keyed by the block's full location (shared with C16 R16.a)", 8, r04i),
         Rule("R04.e", "every comptime block the JIT runs gets a recorded result (must-pass-through results.insert in the evaluation loop)", 1, r04e),
         Rule("R04.g", "the canonicalisation of captured bytes keeps every byte of the value and zeroes the rest (zero_padding evaluated on sample layouts)", 13, r04g),
         Rule("R04.h", "constant tables: item i at i * stride, every other byte defined (expr_to_const_data's array arm evaluated on model items)", 3, r04h),
